@@ -63,7 +63,8 @@ PLANS['C16'] = Plan(
             'src/correlation/optical_map.py::toRelativeGenomicPositions#real',
             'src/correlation/peaks_selector.py::PeaksSelector.selectPeaks',
             'src/correlation/sequence_generator.py::SequenceGenerator.positionsToSequence', 'src/correlation/vectorise.py::blur',
-            'src/correlation/optical_map.py::CorrelationResult.createPeaks', 'src/correlation/optical_map.py::OpticalMap.getSequence'], 'proof',
+            'src/correlation/optical_map.py::CorrelationResult.createPeaks', 'src/correlation/optical_map.py::OpticalMap.getSequence',
+            'src/correlation/optical_map.py::OpticalMap.getInitialAlignment', 'src/correlation/optical_map.py::InitialAlignment.create'], 'proof',
     "C16 is the conjunction of the postconditions of the real functions, each proved for all inputs: vectorisePositions (bit k set iff a label lies in "
     "[start+k*res, start+(k+1)*res), every label between start and end covered; ghost bin boundaries and witness array); blur (a result bit is 1 exactly when a "
     "non-zero original entry lies within the radius, length kept, ValueError exactly for a negative radius: invariant over the list of shifted copies, then the "
@@ -250,7 +251,9 @@ PLANS['C04'] = Plan(
 PLANS['C05'] = Plan(
     'C05', ['src/correlation/peaks_selector.py::PeaksSelector.selectPeaks', WCF + '__getBestAlignment', WCF + 'execute',
             'src/alignment/alignment_results.py::AlignmentResults.filterOutSubsequentAlignmentsForSingleQuery',
-            'src/multi_pass_workflow_coordinator.py::_MultiPassWorkflowCoordinator.execute', WCF + '__align', WCF + '__getPrimaryCorrelations', 'src/program.py::Program.run'], 'other',
+            'src/multi_pass_workflow_coordinator.py::_MultiPassWorkflowCoordinator.execute', WCF + '__align', WCF + '__getPrimaryCorrelations', 'src/program.py::Program.run',
+            'src/correlation/optical_map.py::OpticalMap.getInitialAlignment', 'src/correlation/optical_map.py::InitialAlignment.create',
+            'src/correlation/optical_map.py::CorrelationResult.createPeaks'], 'other',
     "Deductive links: selectPeaks keeps the peaksCount highest-scoring peaks in descending order; __getBestAlignment returns a maximal-confidence candidate; "
     "filterOutSubsequentAlignmentsForSingleQuery keeps one input row per query id, of maximal confidence, in ascending id order; the mode logic of "
     "_MultiPassWorkflowCoordinator.execute returns / writes the stated row lists per mode (ghost log of the writes; best mode: ascending ids, contains every "
@@ -391,4 +394,4 @@ PLANS['C09'] = Plan(
 )
 
 NOT_APPLICABLE = {}
-FIX_COMMITS = ['a1f5353', '24a396c', 'd3d25c6', '9ca2be3', 'e4731ef', '77613ad', 'f7d663a']
+FIX_COMMITS = ['a1f5353', '24a396c', 'd3d25c6', '9ca2be3', 'e4731ef', '77613ad', 'f7d663a', 'd05bf62']
